@@ -16,7 +16,7 @@ TypeOfRole(r) == CASE r = "feature" -> "FeatureLine" [] r = "rule" -> "RuleLine"
                    [] r \in {"scenario", "scenarioOutline"} -> "ScenarioLine" [] r = "examples" -> "ExamplesLine" [] OTHER -> "StepLine"
 TitleList(D, r) == IF r \in {"scenario", "scenarioOutline"} THEN D.scenario \o D.scenarioOutline ELSE ListOf(D, r)
 Seps == << <<>>, <<32>>, <<9>>, <<32, 32>> >>
-Bullets == << <<42>>, <<43>>, <<45>>, <<>>, <<49, 46>>, <<35>> >>
+Bullets == << <<42>>, <<43>>, <<45>>, <<>>, <<49, 46>>, <<35>>, <<120, 32, 45>>, <<120, 42>> >>      \* the last two: a bullet character in mid-line is no bullet
 Inds == << <<>>, <<32>>, <<32, 32, 32>>, <<32, 32, 32, 32>>, <<9, 32, 32, 32, 32, 32>> >>
 VARIABLES vD, vKind, vRole, vK, vDepth, vSep, vInd, vSeen
 mkvars == <<vD, vKind, vRole, vK, vDepth, vSep, vInd, vSeen>>
